@@ -153,6 +153,35 @@ let rprog_of entry : rprog * bool =
   | ["x6l"; s] -> (x6_read true (n_of_s s), true)
   | _ -> failwith ("reader " ^ entry)
 
+(* round 3: the same readers in the explicit error-propagation language of
+   IoFault/ReadPropagate.v (every Result of read_exact / of a called reader is
+   matched by the program); the `r` cases RUN these and assert equality with run_r
+   (C16_crate_readers_propagate + C16_agrees_r_run) *)
+let yprog_of entry : yprog =
+  match split ':' entry with
+  | ["eth"] -> y_read_fixed (n_of_int 14)
+  | ["vlan"] -> y_read_fixed (n_of_int 4)
+  | ["sll"] -> y_read_fixed (n_of_int 16)
+  | ["frag8"] | ["udp"] | ["icmp6"] -> y_read_fixed (n_of_int 8)
+  | ["ip4h"] -> y_ipv4_header_read
+  | ["ip6h"] -> y_ipv6_header_read
+  | ["tcp"] -> y_tcp_header_read
+  | ["icmp4"] -> y_icmpv4_header_read
+  | ["macsec"] -> y_macsec_header_read
+  | ["arp"] -> y_arp_packet_read
+  | ["iph"] -> y_ip_headers_read
+  | ["auth"] -> y_ip_auth_read false
+  | ["rawext"] -> y_ipv6_raw_ext_read false
+  | ["frag"] -> y_ipv6_frag_read false
+  | ["authl"] -> y_ip_auth_read true
+  | ["rawextl"] -> y_ipv6_raw_ext_read true
+  | ["fragl"] -> y_ipv6_frag_read true
+  | ["x4"; s] -> y_x4_read false (n_of_s s)
+  | ["x6"; s] -> y_x6_read false (n_of_s s)
+  | ["x4l"; s] -> y_x4_read true (n_of_s s)
+  | ["x6l"; s] -> y_x6_read true (n_of_s s)
+  | _ -> failwith ("reader " ^ entry)
+
 let s_lim = function
   | None -> ""
   | Some r -> Printf.sprintf " max=%s read=%s loff=%s layer=%s" (s_of_n r.lr_max) (s_of_n r.lr_read)
@@ -222,7 +251,9 @@ let run (line : string) : string =
     let l = if lim then (match rest with
         | [mx; off] -> Some (lr_new (n_of_s mx) N0 (n_of_s off) (n_of_int 3))
         | _ -> failwith "limited reader params") else None in
-    let (r, st') = run_r p { rs_src = src; rs_lim = l } in
+    let (r0, st0) = run_r p { rs_src = src; rs_lim = l } in
+    let (r, st') = run_y (yprog_of entry) { rs_src = src; rs_lim = l } in
+    if (r0, st0) <> (r, st') then failwith "run_y of the explicit program differs from run_r (C16_crate_readers_propagate)";
     let ms = match r with
       | QOk a -> "ok " ^ s_list a | QIo kd -> "io:" ^ s_kind kd | QLen le -> "len " ^ s_lenerr le
       | QContent c -> "content:" ^ s_cerr c | QUnderflow -> "UNDERFLOW" | QBad -> "BAD" | QFuel -> "FUEL" in
